@@ -274,7 +274,7 @@ func (s *stressRun) reader(r *hx.Rand, side int, st *multiplexing.Stream, id uin
 				if len(got) != n {
 					s.note(&s.res.C23, "class=early-eof stream %d side %d: EOF after %d bytes, the peer's Write calls returned %d", id, side, len(got), n)
 				}
-			case <-time.After(5 * time.Second):
+			case <-time.After(60 * time.Second):
 				if isClosedCh(s.mux[0].Closed()) || isClosedCh(s.mux[1].Closed()) {
 					s.count("aborted-by-mux-close")
 				} else {
